@@ -391,7 +391,8 @@ class Ctx:
                 if len(seen) >= 5:
                     break
             rc = 1
-        shutil.rmtree(self.work, ignore_errors=True)
+        if not os.environ.get("VERIF_KEEP_WORK"):
+            shutil.rmtree(self.work, ignore_errors=True)
         return rc
 
 
